@@ -23,6 +23,7 @@ pub mod c29_isolation;
 pub mod c30_objids;
 pub mod c31_anonymize;
 pub mod c32_serde;
+pub mod c37_panics;
 pub mod c38_actorseq;
 pub mod c40_migrate;
 
@@ -60,6 +61,7 @@ pub fn registry() -> Vec<Box<dyn Check>> {
         Box::new(c30_objids::C30),
         Box::new(c31_anonymize::C31),
         Box::new(c32_serde::C32),
+        Box::new(c37_panics::C37),
         Box::new(c38_actorseq::C38),
         Box::new(c15_untrusted::C39),
         Box::new(c40_migrate::C40),
